@@ -109,7 +109,7 @@ pub fn noise_stream(rng: &mut Rng, lex: &Lexicon, len: usize) -> Vec<NoiseTok> {
             3 => (lex.sep.to_string(), WClass::Sep),
             4 => (rng.pick(&lex.linking).clone(), WClass::Linking),
             5 => (rng.pick(&lex.fillers).clone(), WClass::Filler),
-            6 => (rng.pick_str(&PUNCT).to_string(), WClass::Punct),
+            6 => (if rng.chance(1, 8) { " - ".to_string() } else { rng.pick_str(&PUNCT).to_string() }, WClass::Punct),
             7 => (lex.zero.to_string(), WClass::Zero),
             8 => (rng.pick_str(&["2", "30", "7", "1999", "05", "١٢", "½", "3,5"]).to_string(), WClass::Digits),
             _ => {
@@ -163,6 +163,43 @@ const SALT: [&str; 22] = [
 /// characters that look like the two separators the tokenizer special-cases (hyphen, apostrophe) but are not them
 pub const HYPHEN_LIKE: [&str; 12] = ["\u{2010}", "\u{2011}", "\u{2012}", "\u{2013}", "\u{2014}", "\u{2212}", "\u{ad}", "\u{fe63}", "\u{ff0d}", "\u{2019}", "\u{2bc}", "\u{ff07}"];
 
+/// the word without its diacritics (`vírgula` -> `virgula`, `tweeëntwintig` -> `tweeentwintig`): what a transcript
+/// typed on a plain keyboard contains
+pub fn fold_accents(w: &str) -> String {
+    w.chars()
+        .map(|c| match c {
+            'á' | 'à' | 'â' | 'ã' | 'ä' => 'a',
+            'é' | 'è' | 'ê' | 'ë' => 'e',
+            'í' | 'ì' | 'î' | 'ï' => 'i',
+            'ó' | 'ò' | 'ô' | 'õ' | 'ö' => 'o',
+            'ú' | 'ù' | 'û' | 'ü' => 'u',
+            'ç' => 'c',
+            'ñ' => 'n',
+            _ => c,
+        })
+        .collect()
+}
+
+/// a near miss of a vocabulary word: accents folded, last letter dropped or doubled, a plural `s`, an accent added
+pub fn near_miss(rng: &mut Rng, w: &str) -> String {
+    let cs: Vec<char> = w.chars().collect();
+    match rng.below(6) {
+        0 | 1 => fold_accents(w),
+        2 if cs.len() > 1 => cs[..cs.len() - 1].iter().collect(),
+        3 => format!("{}{}", w, cs.last().copied().unwrap_or('a')),
+        4 => format!("{}s", w),
+        _ => w
+            .chars()
+            .map(|c| match c {
+                'e' if rng.chance(1, 3) => 'é',
+                'i' if rng.chance(1, 3) => 'í',
+                'a' if rng.chance(1, 4) => 'ã',
+                _ => c,
+            })
+            .collect(),
+    }
+}
+
 pub fn random_case(rng: &mut Rng, w: &str) -> String {
     match rng.below(4) {
         0 => w.to_uppercase(),
@@ -203,6 +240,7 @@ pub fn hostile_text(rng: &mut Rng, lex: &Lexicon, max_words: usize) -> String {
                     }
                 }
                 3 | 4 => w = random_case(rng, &w),
+                7 => w = near_miss(rng, &w),
                 5 => {
                     // a hyphenated / multi-word number whose joiner is replaced by a look-alike character
                     let n = random_number(rng, 3);
